@@ -131,7 +131,7 @@ func GenOD(w *World, prof ODProfile) *Scenario {
 	for i := 0; i < nE; i++ {
 		kind := 0
 		if prof.Pause {
-			kind = s.Weighted([]int{6, 2, 2}, "edit-kind")
+			kind = s.Weighted([]int{6, 2, 2, 1}, "edit-kind")
 		}
 		switch kind {
 		case 0:
@@ -161,6 +161,29 @@ func GenOD(w *World, prof ODProfile) *Scenario {
 		case 2:
 			sc.UserOps = append(sc.UserOps, UserOp{Label: "unpause od-1", Do: func(w *World) {
 				_, _ = w.TP("user", w.Mgmt).Mutate(g.Key, func(o store.Obj) { delete(o["spec"].(map[string]any), "paused") })
+			}})
+		case 3:
+			// somebody sets the lifecycleState of the newest non-archived revision back to Active by hand
+			sc.UserOps = append(sc.UserOps, UserOp{Label: "activate newest revision by hand (if the deployment is paused)", Do: func(w *World) {
+				od, ok := w.Mgmt.Objs[g.Key]
+				if !ok {
+					return
+				}
+				if b, _ := store.Get(od, "spec", "paused").(bool); !b {
+					return // only while the deployment is paused: the parent has to re-assert its pause
+				}
+				var newest store.Obj
+				for _, st := range setsOfDeployment(w.Mgmt.Objs, od) {
+					if store.Str(st, "spec", "lifecycleState") == "Archived" || store.Deleting(st) {
+						continue
+					}
+					if newest == nil || store.Int(st, "status", "revision") > store.Int(newest, "status", "revision") {
+						newest = st
+					}
+				}
+				if newest != nil {
+					_, _ = w.TP("user", w.Mgmt).Mutate(store.KeyOf(newest), func(o store.Obj) { o["spec"].(map[string]any)["lifecycleState"] = "Active" })
+				}
 			}})
 		}
 	}
